@@ -108,7 +108,7 @@ def _real_accessor(doc, acc, kind, strict, meter):
     old = settings.STRICT
     settings.STRICT = strict
     try:
-        res, exc = meter.run(fn, 100_000, wall=20)
+        res, exc = meter.run(fn, 100_000, cpu=20)
     finally:
         settings.STRICT = old
     oc = workmeter.classify(meter, exc)
@@ -310,7 +310,7 @@ def _direct_api(data, how, meter):
             except KeyError:
                 return None
         return list(doc.get_outlines())
-    res, exc = meter.run(go, faultrun.budget_for(data), wall=faultrun.WALL)
+    res, exc = meter.run(go, faultrun.budget_for(data), cpu=faultrun.CPU_LIMIT)
     return workmeter.classify(meter, exc)
 
 
